@@ -8,7 +8,9 @@
 (*             size (of a variable, of a literal, of a mutable variable)               *)
 (*     element insert / remove with every element e of the universe (value, applied    *)
 (*             twice, size, undone by the opposite function, membership of e in the    *)
-(*             result, mutable operands), not-element-of (symbol, word)                *)
+(*             result, mutable operands), not-element-of (symbol, word); the element  *)
+(*             given as a variable next to a literal set (insert, remove, not-element- *)
+(*             of, element-of)                                                         *)
 (*             cross-kind: the element is a value of ANOTHER kind                      *)
 (*     binary  with every written sequence b: cartesian-product (value, size,          *)
 (*             membership of every pair of the universe, (A x B) x A, mutable),        *)
@@ -18,7 +20,8 @@
 (*             insert / remove folded over the elements of b                           *)
 (*             cross-kind: B is a set of another element kind                          *)
 (* One CASE line per (kind, a, fn, asp, b / e).  sig = G03/<fn>/<kind>/<asp>-<class>,  *)
-(* class = how the operands relate (empty / present / fresh / equal / psub / ...).     *)
+(* class = how the operands relate (empty / present / fresh / equal / psub / ...);     *)
+(* every case whose evaluation inserts into an empty set: G03/insert/<kind>/into-empty *)
 EXTENDS MechSetMore, Json
 
 CONSTANTS Kinds,        \* element kinds (names; the area module maps (kind, id) to concrete values and spellings)
@@ -48,7 +51,7 @@ BigSeq(seed) ==
 
 (* ------------------------------------------------------------------ cases *)
 Op(fn, asp, b, e, k2) == [fn |-> fn, asp |-> asp, b |-> b, e |-> e, k2 |-> k2]
-XAsp(k2) == "cross-kind:" \o k2
+XAsp == "cross-kind"          \* the operand B / the element e is read in kind k2 # kind
 
 UnaryOps(k, a) ==
   IF Len(a) > ULen THEN {}
@@ -61,7 +64,10 @@ ElemOps(k, a) ==
   ELSE      {Op("insert", asp, <<>>, e, k) : asp \in {"value", "idempotent", "size", "then-remove", "member", "mutable"}, e \in 1..KN(k)}
        \cup {Op("remove", asp, <<>>, e, k) : asp \in {"value", "idempotent", "size", "then-insert", "member", "mutable"}, e \in 1..KN(k)}
        \cup {Op("not-element-of", asp, <<>>, e, k) : asp \in {"symbol", "word"}, e \in 1..KN(k)}
-       \cup {Op(fn, XAsp(k2), <<>>, 1, k2) : fn \in {"insert", "remove", "not-element-of"}, k2 \in CrossKinds \ {k}}
+       (* the element is given as a VARIABLE and the set as a literal (every other aspect: literal element, or both variables) *)
+       \cup {Op(fn, "elem-var", <<>>, e, k) : fn \in {"insert", "remove", "not-element-of", "element-of"}, e \in 1..KN(k)}
+       (* an empty set has no element kind: the cross-kind aspects need a non-empty A *)
+       \cup (IF a = <<>> THEN {} ELSE {Op(fn, XAsp, <<>>, 1, k2) : fn \in {"insert", "remove", "not-element-of"}, k2 \in CrossKinds \ {k}})
 
 BinFns ==
        {<<"cartesian-product", asp>> : asp \in {"value", "size", "member", "nested", "mutable"}}
@@ -75,7 +81,7 @@ BinOps(k, a) ==
    ELSE {Op(f[1], f[2], b, 0, k) : f \in BinFns, b \in Seqs(KN(k), BLen)})
   \cup
   (IF Len(a) > XLen THEN {}
-   ELSE UNION {{Op(fn, XAsp(k2), b, 0, k2) : fn \in {"cartesian-product", "disjoint", "equals"}, b \in Seqs(KN(k2), XLen)}
+   ELSE UNION {{Op(fn, XAsp, b, 0, k2) : fn \in {"cartesian-product", "disjoint", "equals"}, b \in Seqs(KN(k2), XLen)}
                  : k2 \in CrossKinds \ {k}})
 
 BigOps(c) ==
@@ -146,19 +152,20 @@ Expect(c) ==
       [] fn = "powerset" /\ asp = "twice"   -> X("exact", "setsetset", Powerset(Powerset(A)))
       [] fn = "powerset" /\ asp = "member"  -> X("exact", "bool", B \in Powerset(A))
       [] fn = "size"                        -> X("exact", "nat", Size(A))
-      [] fn = "insert" /\ asp \in {"value", "mutable"} -> X("exact", "set", Insert(A, e))
+      [] fn = "insert" /\ asp \in {"value", "mutable", "elem-var"} -> X("exact", "set", Insert(A, e))
       [] fn = "insert" /\ asp = "idempotent"  -> X("exact", "set", Insert(Insert(A, e), e))
       [] fn = "insert" /\ asp = "size"        -> X("exact", "nat", Size(Insert(A, e)))
       [] fn = "insert" /\ asp = "then-remove" -> X("exact", "set", Remove(Insert(A, e), e))
       [] fn = "insert" /\ asp = "member"      -> X("exact", "bool", ElementOf(e, Insert(A, e)))
       [] fn = "insert" /\ asp = "fold"        -> X("exact", "set", FoldInsert(A, o.b, 1))
-      [] fn = "remove" /\ asp \in {"value", "mutable"} -> X("exact", "set", Remove(A, e))
+      [] fn = "remove" /\ asp \in {"value", "mutable", "elem-var"} -> X("exact", "set", Remove(A, e))
       [] fn = "remove" /\ asp = "idempotent"  -> X("exact", "set", Remove(Remove(A, e), e))
       [] fn = "remove" /\ asp = "size"        -> X("exact", "nat", Size(Remove(A, e)))
       [] fn = "remove" /\ asp = "then-insert" -> X("exact", "set", Insert(Remove(A, e), e))
       [] fn = "remove" /\ asp = "member"      -> X("exact", "bool", ElementOf(e, Remove(A, e)))
       [] fn = "remove" /\ asp = "fold"        -> X("exact", "set", FoldRemove(A, o.b, 1))
       [] fn = "not-element-of"                -> X("exact", "bool", NotElementOf(e, A))
+      [] fn = "element-of"                    -> X("exact", "bool", ElementOf(e, A))
       [] fn = "cartesian-product" /\ asp \in {"value", "mutable"} -> X("exact", "pairs", Product(A, B))
       [] fn = "cartesian-product" /\ asp = "size"   -> X("exact", "nat", Size(Product(A, B)))
       [] fn = "cartesian-product" /\ asp = "member" ->
@@ -178,12 +185,25 @@ Reordered(c) == FromWritten(c.a) = FromWritten(c.o.b) /\ FromWrittenK(c.a) # Fro
 ClassOf(c) ==
   LET o == c.o  A == FromWritten(c.a)  B == FromWritten(o.b) IN
   IF IsCross(o, c) THEN (IF IsElem(o) THEN UClass(A) ELSE XClass(A, B))
+  ELSE IF o.asp = "elem-var" THEN "any"
   ELSE IF IsElem(o) THEN EClass(A, o.e)
   ELSE IF o.asp \in Unary /\ o.fn \in {"powerset", "size"} THEN UClass(A)
   ELSE IF o.asp = "of-powersets" /\ Reordered(c) THEN "equal-reordered"
+  ELSE IF o.fn = "powerset" /\ o.asp = "member" THEN (IF Subset(B, A) THEN "subset" ELSE "not-subset")
   ELSE BClass(A, B)
 
-Sig(c) == "G03/" \o c.o.fn \o "/" \o c.kind \o "/" \o c.o.asp \o "-" \o ClassOf(c)
+(* the evaluation of the case applies set/insert to an EMPTY set (whatever the aspect): one family *)
+IntoEmpty(c) ==
+  LET o == c.o  A == FromWritten(c.a) IN
+  /\ ~IsCross(o, c)
+  /\ \/ o.fn = "insert" /\ o.asp \in {"value", "idempotent", "size", "then-remove", "member", "mutable"} /\ A = {}
+     \/ o.fn = "insert" /\ o.asp = "fold" /\ A = {} /\ o.b # <<>>
+     \/ o.fn = "remove" /\ o.asp = "then-insert" /\ Remove(A, o.e) = {}
+
+(* elem-var is an aspect of the FORM of the call (which operand is a variable), not of the element values: keyed with kind "any" *)
+Sig(c) == IF IntoEmpty(c) THEN "G03/insert/" \o c.kind \o "/into-empty"
+          ELSE IF c.o.asp = "elem-var" THEN "G03/" \o c.o.fn \o "/any/elem-var"
+          ELSE "G03/" \o c.o.fn \o "/" \o c.kind \o "/" \o c.o.asp \o "-" \o ClassOf(c)
 
 CaseJson(c) ==
   LET x == Expect(c) IN
@@ -233,6 +253,9 @@ Expects == Done =>
   /\ (o.fn = "proper-subset") => x.res = PSubsetK(a, b)
   /\ (o.fn = "proper-superset") => x.res = PSupersetK(a, b)
   /\ (o.fn = "not-element-of" /\ ~IsCross(o, cs)) => x.res = ~Has(a, o.e)
+  /\ (o.fn = "element-of") => x.res = Has(a, o.e)
+  /\ (o.asp = "elem-var" /\ o.fn \in {"insert", "remove"}) => x.res = (IF o.fn = "insert" THEN Range(InsertK(a, o.e)) ELSE Range(RemoveK(a, o.e)))
+  /\ IntoEmpty(cs) => (x.exp = "exact" /\ x.rk \in {"set", "nat", "bool"})
   /\ (o.fn \in {"remove", "not-element-of"} /\ IsCross(o, cs)) => x.res = (IF o.fn = "remove" THEN A ELSE TRUE)
 
 Emit == Done => PrintT(<<"CASE", ToJson(CaseJson(cs))>>)
